@@ -395,8 +395,7 @@ def accum_for_split(sizes):
     return s
 
 
-@functools.lru_cache(maxsize=2**15)
-def calc_reshape_args(shape, newshape, subsizes):
+def _calc_reshape_args(shape, newshape, subsizes):
     """Given a current block sparse shape ``shape`` a target shape ``newshape``
     and current sub index sizes ``subsizes`` (i.e. previously fused dimensions)
     compute the sequence of axes to unfuse, fuse and expand to reshape the
@@ -496,9 +495,13 @@ def calc_reshape_args(shape, newshape, subsizes):
 
     # check trailing dimensions, which should be size 1
     for i in range(i, ndim_old):
+        if shape[i] != 1:
+            raise ValueError("Shape mismatch.")
         any_singleton = True
         term.append("s")
     for j in range(j, ndim_new):
+        if newshape[j] != 1:
+            raise ValueError("Shape mismatch.")
         axs_expand.append(k)
 
     # first we handle unfusings
@@ -588,6 +591,29 @@ def calc_reshape_args(shape, newshape, subsizes):
     axs_expand.reverse()
 
     return tuple(axs_unfuse), tuple(axs_fuse), tuple(axs_expand)
+
+
+@functools.lru_cache(maxsize=2**15)
+def calc_reshape_args(shape, newshape, subsizes):
+    """Compute the axes to unfuse, fuse and expand to reshape an array, see
+    ``_calc_reshape_args``. Unfusing is matched greedily, if that cannot
+    produce ``newshape`` (e.g. a sparsely fused axis whose size happens to
+    equal its first sub size), fused axes are instead kept as they are.
+    """
+    try:
+        return _calc_reshape_args(shape, newshape, subsizes)
+    except ValueError:
+        for i, ss in enumerate(subsizes):
+            if ss is not None:
+                try:
+                    return calc_reshape_args(
+                        shape,
+                        newshape,
+                        (*subsizes[:i], None, *subsizes[i + 1 :]),
+                    )
+                except ValueError:
+                    pass
+        raise
 
 
 @functools.lru_cache(2**14)
